@@ -46,6 +46,30 @@ fn judge_and_run(out: &mut Out, toks: &[Tok], src: &str, hook: bool) {
     let rr = exec::run_ref(ast, &m, true);
     let ir = exec::run_impl(src, Some(tree), &m, Entry::TreeMut, false);
     out.eval();
+    // the tuple-typed views and the context-free form must run the same program
+    {
+        let which = if tree.children().len() % 2 == 0 { 5 } else { 12 };
+        let (effects, vars) = exec::run_typed(src, tree, &m, which);
+        out.eval();
+        let same_log = rr.run.log.len() == effects.len() && rr.run.log.iter().zip(&effects).all(|(a, b)| a.same(b));
+        if !matches!(rr.result, Err(crate::refmodel::eval::RErr::Unclaimed(_))) && (!same_log || !api::same_vars(&rr.after.vars, &vars)) {
+            out.violation(
+                "sequence/typed-entry-point",
+                format!("{}   [{}; initial context {}]", src, exec::TYPED_NAMES[which], m.show_vars()),
+                format!("{} ; final {}", exec::show_effects(&rr.run.log), rr.after.show_vars()),
+                format!("{} ; final {}", exec::show_effects(&effects), api::show_vars(&vars)),
+            );
+        }
+        let free_ref = exec::run_ref(ast, &Model::new(), true);
+        if !matches!(free_ref.result, Err(crate::refmodel::eval::RErr::Unclaimed(_))) {
+            let got = api::lift(crate::observe::guard(|| evalexpr::eval(src)));
+            out.eval();
+            let ok = got.lifted().map_or(false, |l| crate::refmodel::eval::outcome_matches(&free_ref.result, &l));
+            if !ok {
+                out.violation("sequence/context-free", format!("eval({:?})", src), exec::show_ref_result(&free_ref.result), got.show());
+            }
+        }
+    }
     // the same program through the read-only path (the property is about the language, not one entry point)
     let rr_imm = exec::run_ref(ast, &m, false);
     let ir_imm = exec::run_impl(src, Some(tree), &m, Entry::TreeImm, false);
@@ -131,6 +155,47 @@ impl Phase for SeqSweep {
         }
         let toks: Vec<Tok> = seq.iter().map(|i| self.alphabet[*i].clone()).collect();
         let src = render_spaced(&toks);
+        judge_and_run(out, &toks, &src, false);
+    }
+}
+
+/// sequences nested inside open sequences, many levels deep (well inside the 4096-character bound)
+struct DeepNest {
+    n: u64,
+}
+
+impl Phase for DeepNest {
+    fn name(&self) -> String {
+        "deeply nested sequences (10-60 levels)".into()
+    }
+    fn len(&self) -> u64 {
+        self.n
+    }
+    fn run(&mut self, _idx: u64, r: &mut Rng, out: &mut Out) {
+        use crate::refmodel::parse::Ast;
+        let depth = r.range(10, 60);
+        let mut k = 0i64;
+        let mut a = Ast::Const(RV::Int(0));
+        for _ in 0..depth {
+            k += 1;
+            let before: Vec<Ast> = (0..r.below(3)).map(|j| if j == 0 { Ast::Assign("=", "x".into(), Box::new(Ast::Const(RV::Int(k)))) } else { Ast::Const(RV::Int(k)) }).collect();
+            let mut elems = before;
+            elems.push(a);
+            if r.chance(1, 3) {
+                elems.push(Ast::Call("t".into(), Box::new(Ast::Const(RV::Int(k)))));
+            }
+            a = if elems.len() == 1 {
+                // a tuple or chain needs two slots: an empty one keeps the level a sequence
+                if r.chance(1, 2) { Ast::Tuple(vec![elems.pop().unwrap(), Ast::Empty]) } else { Ast::Chain(vec![Ast::Empty, elems.pop().unwrap()]) }
+            } else if r.chance(1, 2) {
+                Ast::Tuple(elems)
+            } else {
+                Ast::Chain(elems)
+            };
+        }
+        let toks = render_ast(&a, Parens::Minimal, Some(r), false);
+        let src = render_spaced(&toks);
+        out.count("deep nests");
         judge_and_run(out, &toks, &src, false);
     }
 }
@@ -227,6 +292,9 @@ pub fn phases(cfg: &Cfg) -> Vec<Box<dyn Phase>> {
         }),
         Box::new(RandomSeq {
             n: cfg.n(400_000, 5_000_000),
+        }),
+        Box::new(DeepNest {
+            n: cfg.n(3_000, 100_000),
         }),
     ]
 }
